@@ -66,6 +66,8 @@ def render_models(sig, names, app):
             meta.append('        db_table = %r' % (
                 names.table(ms['table']) if ms['table'].startswith('t_')
                 else ms['table']))
+        if ms.get('comment'):
+            meta.append('        db_table_comment = %r' % ms['comment'])
         if ms['ut']:
             meta.append('        unique_together = %r' % (
                 [tuple(names.field(x) for x in t) for t in ms['ut']],))
